@@ -370,6 +370,8 @@ impl<'a> GeneratorState<'a> {
                                         self.tmp_in_use = true;
                                     }
                                     self.asm(LDY, &ExprType::Immediate(0), pos, false)?;
+                                    // LDY has changed N and Z
+                                    self.flags = FlagsState::Unknown;
                                     Ok(ExprType::AbsoluteY(var.into()))
                                 }
                             }
@@ -875,6 +877,8 @@ impl<'a> GeneratorState<'a> {
                                 }
                                 self.asm_save_y(dummy_pos);
                                 self.asm(LDY, &sub_output, pos, false)?;
+                                // LDY has changed N and Z
+                                self.flags = FlagsState::Unknown;
                                 self.saved_y = true;
                                 Ok(ExprType::AbsoluteY(variable.into()))
                             } else {
@@ -896,6 +900,8 @@ impl<'a> GeneratorState<'a> {
                                 }
                                 self.asm_save_y(dummy_pos);
                                 self.asm(LDY, &sub_output, pos, false)?;
+                                // LDY has changed N and Z
+                                self.flags = FlagsState::Unknown;
                                 self.saved_y = true;
                                 Ok(ExprType::AbsoluteY(variable.into()))
                             } else {
